@@ -49,7 +49,9 @@ impl<'a, 'tcx> H<'a, 'tcx> {
                 }
                 o
             }
-            Res::Local(hid) => o.put_s("local", self.cx.tcx.hir_name(hid).to_string()),
+            Res::Local(hid) => o
+                .put_s("local", self.cx.tcx.hir_name(hid).to_string())
+                .put_i("hid", hid.local_id.as_u32() as i128),
             Res::SelfCtor(_) => o.put_s("path", "Self").put_s("rk", "SelfCtor"),
             Res::SelfTyAlias { .. } | Res::SelfTyParam { .. } => o.put_s("path", "Self").put_s("rk", "SelfTy"),
             Res::PrimTy(_) => o.put_s("path", "<prim>").put_s("rk", "PrimTy"),
@@ -90,8 +92,14 @@ impl<'a, 'tcx> H<'a, 'tcx> {
         match &p.kind {
             Wild => o.put_s("p", "wild").done(),
             Missing | Never => o.put_s("p", "never").done(),
-            Binding(_, _, ident, sub) => {
-                let mut o = o.put_s("p", "bind").put_s("name", ident.name.to_string());
+            Binding(_, hid, ident, sub) => {
+                let mut o = o
+                    .put_s("p", "bind")
+                    .put_s("name", ident.name.to_string())
+                    .put_i("hid", hid.local_id.as_u32() as i128);
+                if let Some(t) = self.tr.node_type_opt(p.hir_id) {
+                    o = o.put_s("ty", self.cx.ty_str(t));
+                }
                 if let Some(s) = sub {
                     o = o.put("sub", self.pat(s));
                 }
